@@ -1,6 +1,6 @@
 """Texts for MANIFEST.json (bin/mkmanifest)."""
 
-HOOK_COMMITS = ["08dcd93"]
+HOOK_COMMITS = ["08dcd93", "7e68fa3"]
 
 NOTES = ("Every check regenerates BRV/Gen/Facts.lean from /repo, rebuilds the property's Lean theorems against it, "
          "audits axioms, then runs corpus + seeded op scripts through the real code and the Lean model and diffs. "
